@@ -70,6 +70,8 @@ def build_tree(src, label):
     r = subprocess.run(['make', 'libs', 'CC=clang', 'EXTRA_CFLAGS=' + CFLAGS + ' -DMATRIXSSL_VERIF', '-j16'], cwd=d, stdout=subprocess.PIPE, stderr=subprocess.STDOUT, text=True)
     if r.returncode != 0:
         raise SystemExit('make libs failed in %s\n%s' % (d, r.stdout[-3000:]))
+    for stale in glob.glob(os.path.join(d, 'bin-*')):   # target binaries are rebuilt against the fresh libs
+        os.remove(stale)
     _built[label] = d
     return d
 
